@@ -44,15 +44,28 @@ def _uf1(name, x, axioms=None):
         if arg.eq(zx):
             return Sym(app)
     from .sigma import _prove_eq
+
+    def same(a, b):
+        # polynomial normal form first (cheap); the solver only when a quotient is involved and a random
+        # exact-rational evaluation does not already separate the two terms (never merging is always sound)
+        dlt = z3.simplify(a - b, som=True)
+        if z3.is_rational_value(dlt):
+            return dlt.as_fraction() == 0
+        if not (_has_div(a) or _has_div(b)):
+            return False
+        if _numerically_different(c, dlt):
+            return False
+        return _prove_eq(c, a, b, [], timeout=1500)
+
     for arg, app in apps:
-        if _prove_eq(c, arg, zx, [], timeout=1500):
+        if same(arg, zx):
             apps.append((zx, app))
             return Sym(app)
     e = S.uf(name, zx)
     if name == "exp":
         # exp(a)*exp(-a) = 1 for every pair of applications with provably opposite arguments
         for arg, app in apps:
-            if _prove_eq(c, arg, -zx, [], timeout=1500):
+            if same(arg, -zx):
                 c.defs.append(e * app == 1)
                 break
     apps.append((zx, e))
@@ -60,6 +73,61 @@ def _uf1(name, x, axioms=None):
         for a in axioms(zx, e):
             c.defs.append(a)
     return Sym(e)
+
+
+def _leaves(e, out, seen):
+    stack = [e]
+    while stack:
+        t = stack.pop()
+        i = t.get_id()
+        if i in seen:
+            continue
+        seen.add(i)
+        if z3.is_app(t):
+            if t.decl().kind() == z3.Z3_OP_UNINTERPRETED:
+                out.append(t)
+                continue
+            stack.extend(t.children())
+
+
+def _numerically_different(c, dlt):
+    """evaluate the difference at two random exact-rational assignments of its leaf terms (uninterpreted
+    applications and constants); a non-zero value at either separates the terms for certain"""
+    import random
+    leaves = []
+    _leaves(dlt, leaves, set())
+    table = c.uf_cache.setdefault("numeric_leaf_values", {})
+    for trial in range(2):
+        subs = []
+        for t in leaves:
+            key = (S.eid(t), trial)
+            if key not in table:
+                rnd = random.Random(hash((t.sexpr(), trial)) & 0xFFFFFFF)
+                if z3.is_int(t):
+                    table[key] = z3.IntVal(rnd.randint(2, 40))
+                else:
+                    table[key] = z3.RealVal(f"{rnd.randint(3, 997)}/{rnd.randint(3, 97)}")
+            subs.append((t, table[key]))
+        v = z3.simplify(z3.substitute(dlt, *subs)) if subs else z3.simplify(dlt)
+        if z3.is_rational_value(v) and v.as_fraction() != 0:
+            return True
+    return False
+
+
+def _has_div(e):
+    seen = set()
+    stack = [e]
+    while stack:
+        t = stack.pop()
+        i = t.get_id()
+        if i in seen:
+            continue
+        seen.add(i)
+        if z3.is_app(t):
+            if t.decl().kind() in (z3.Z3_OP_DIV, z3.Z3_OP_IDIV, z3.Z3_OP_MOD, z3.Z3_OP_ITE):
+                return True
+            stack.extend(t.children())
+    return False
 
 
 def _map(x, f):
